@@ -31,6 +31,13 @@ package verifharness
 //        NOT the packet contract and emits LOG1(keccak("PacketSent(bytes)"), abi(packet)): a look-alike; the hook must ignore it.
 //        spec = <dst>,<seq n|p|f>,<src s|o>,<tok>,<amt>,<receiver>: destination, sequence = next / next-1 / next+1 of that
 //        destination, source name = this chain / another chain; transfer data "amt of tok to receiver". Also a batch leg: L,<spec>)
+//   send … <call> cb                              the packet's callback address is the switch contract (account 12)
+//   cbset <chain> <0|1>                           -> ok        (flip the switch: while on, every callback reverts)
+//   restart <chain> | restartapp <chain>          -> ok <dump chain>   (export -> import of the xibc module / the whole app)
+//   simrecv … | simack …                          -> ok|err <dump>     (the relay transaction on a dropped context: BaseApp.Simulate)
+//   plant <chain> <dst> <n>                       -> ok <dump chain>   (send counter of an untouched path set to n)
+//   mint … -> ok|err (err: the total supply would pass 2^256-1); all amounts are uint256 values
+//   (see c03_restart_test.go)
 //   recv <src> <dst> <seq> [forge] [by<acct>]      (the relay messages are signed by account 0, 8 or 9; light clients are
 //   ack  <src> <dst> <seq> [forge] [by<acct>]       updated by a dedicated account that no registry op touches)
 //   recv <src> <dst> <seq> [forge]                -> ok code=<ack code>|err <dump dst>
@@ -76,6 +83,8 @@ type c03Obs struct {
 	feePaid    int // ack steps in which the fee left the escrow towards the relayer
 	regAtRecv  int // registry version of the SOURCE chain when the destination wrote the acknowledgement
 	stuck      bool
+	cb         bool // callback address = the switch contract
+	cbRejected int  // genuine acknowledgement deliveries that failed because the callback contract reverted
 }
 
 type c03Harness struct {
@@ -88,6 +97,14 @@ type c03Harness struct {
 	// breaks it is reported (with that step's mechanism), later steps on the same triple are consequences
 	brokenEq map[string]bool
 	regVersion [c03NChains]int // number of registry changes on a chain after the default registration
+	// sequences of every path that the dump looks at: every value the path's next-send counter has had (counters can be
+	// planted at 2^63 and above, so "1 .. next" is not a loop)
+	seen     [c03NChains]map[int][]uint64
+	switchOn [c03NChains]bool // state of the callback contract's switch (as set by the `cbset` ops)
+	restarts [c03NChains]int
+	planted  map[[2]int]uint64 // paths whose send counter was planted before any traffic, and where
+	lastSim  string            // the relay op (without the "sim" prefix) that the previous op ran on a dropped context
+	lastSimOK bool
 }
 
 func (h *c03Harness) name(i int) string { return c03ChainName(i) }
@@ -95,6 +112,15 @@ func (h *c03Harness) name(i int) string { return c03ChainName(i) }
 func (h *c03Harness) tokAddr(c, t int) (common.Address, bool) {
 	a, ok := h.w.tok[c][t]
 	return a, ok
+}
+
+// c03Big parses a uint256 value of the op language (go-ethereum's ABI encoder silently wraps anything larger)
+func c03Big(s string) *big.Int {
+	v, ok := new(big.Int).SetString(s, 10)
+	if !ok || v.Sign() < 0 || v.BitLen() > 256 {
+		panic("not a uint256: " + s)
+	}
+	return v
 }
 
 func c03Atoi(s string) int {
@@ -119,11 +145,39 @@ func (h *c03Harness) dsts(i int) []int {
 
 func (h *c03Harness) nextSeq(i, d int) uint64 { return h.w.nextSeq(i, h.name(d)) }
 
-func (h *c03Harness) nextSeqFrom(s, i int) uint64 {
-	if s == c03Ghost {
-		return 1
+// noteSeqs records the current next-send counters of every path (gaps of up to 64 are filled: a batch commits several)
+func (h *c03Harness) noteSeqs() {
+	for i := 0; i < c03NChains; i++ {
+		if h.seen[i] == nil {
+			h.seen[i] = map[int][]uint64{}
+		}
+		for _, d := range h.dsts(i) {
+			l := h.seen[i][d]
+			if len(l) == 0 {
+				l = []uint64{1}
+			}
+			n := h.nextSeq(i, d)
+			last := l[len(l)-1]
+			if n > last {
+				if n-last <= 64 {
+					for q := last; q < n; { // (n may be the largest uint64)
+						q++
+						l = append(l, q)
+					}
+				} else {
+					l = append(l, n)
+				}
+			}
+			h.seen[i][d] = l
+		}
 	}
-	return h.w.nextSeq(s, h.name(i))
+}
+
+func (h *c03Harness) seqsOf(s, d int) []uint64 {
+	if s == c03Ghost {
+		return nil
+	}
+	return h.seen[s][d]
 }
 
 type c03View struct {
@@ -147,6 +201,7 @@ func (v c03View) String() string {
 
 func (h *c03Harness) view(i int) c03View {
 	w := h.w
+	h.noteSeqs()
 	var parts []string
 	ntok := len(w.tok[i])
 	for t := 0; t < ntok; t++ {
@@ -190,14 +245,14 @@ func (h *c03Harness) view(i int) c03View {
 		}
 	}
 	for _, d := range h.dsts(i) {
-		for s := uint64(1); s <= next[d]; s++ {
+		for _, s := range h.seqsOf(i, d) {
 			if k := w.ackStatus(i, h.name(d), s); k != 0 {
 				parts = append(parts, fmt.Sprintf("k:%d.%d=%d", d, s, k))
 			}
 		}
 	}
 	for _, d := range h.dsts(i) {
-		for s := uint64(1); s <= next[d]; s++ {
+		for _, s := range h.seqsOf(i, d) {
 			ft, fa := w.packetFee(i, h.name(d), s)
 			if fa.Sign() != 0 {
 				parts = append(parts, fmt.Sprintf("f:%d.%d=%d:%s", d, s, h.tokID(i, ft), fa))
@@ -205,7 +260,7 @@ func (h *c03Harness) view(i int) c03View {
 		}
 	}
 	for _, d := range h.dsts(i) {
-		for s := uint64(1); s <= next[d]; s++ {
+		for _, s := range h.seqsOf(i, d) {
 			if d != c03Ghost && w.hasCommitment(i, d, s) {
 				parts = append(parts, fmt.Sprintf("c:%d.%d", d, s))
 			}
@@ -213,16 +268,14 @@ func (h *c03Harness) view(i int) c03View {
 	}
 	var kp []string
 	for _, s := range h.dsts(i) {
-		n := h.nextSeqFrom(s, i)
-		for q := uint64(1); q <= n; q++ {
+		for _, q := range h.seqsOf(s, i) {
 			if s != c03Ghost && w.hasReceipt(s, i, q) {
 				kp = append(kp, fmt.Sprintf("r:%d.%d", s, q))
 			}
 		}
 	}
 	for _, s := range h.dsts(i) {
-		n := h.nextSeqFrom(s, i)
-		for q := uint64(1); q <= n; q++ {
+		for _, q := range h.seqsOf(s, i) {
 			if s == c03Ghost {
 				continue
 			}
@@ -356,7 +409,7 @@ func (h *c03Harness) nextSeqs(c int) map[int]uint64 {
 func (h *c03Harness) fakeLogData(c, sender int, g []string) []byte {
 	w := h.w
 	d, t, rcv := c03Atoi(g[0]), c03Atoi(g[3]), c03Atoi(g[5])
-	amt, _ := new(big.Int).SetString(g[4], 10)
+	amt := c03Big(g[4])
 	seq := uint64(1)
 	if d != c03Ghost && d != c {
 		seq = w.ch[c].App.XIBCKeeper.PacketKeeper.GetNextSequenceSend(w.ch[c].GetContext(), h.name(c), h.name(d))
@@ -558,16 +611,98 @@ func (h *c03Harness) observeNew(call string, nested bool) {
 			}
 			o.token, o.oriToken, o.amount = strings.ToLower(td.Token), strings.ToLower(td.OriToken), new(big.Int).SetBytes(td.Amount)
 		}
-		if d != c03Ghost || true {
-			o.feeTok, o.feeAmt = h.w.packetFee(s, h.name(d), q)
-		}
+		o.feeTok, o.feeAmt = h.w.packetFee(s, h.name(d), q)
+		o.cb = strings.EqualFold(rec.packet.CallbackAddress, h.w.acc[c03AccSwitch].String())
 		h.obs[k] = o
 		h.keys = append(h.keys, k)
 	}
 	sort.Strings(h.keys[:0]) // keys stay in creation order; nothing to sort
 }
 
+// relayBytes: the packet (and acknowledgement) bytes a relay op carries — the recorded ones, forged variants, or made-up
+// ones for a packet that was never sent
+func (h *c03Harness) relayBytes(isAck bool, s, d int, q uint64, forge bool) (pkt, ack []byte) {
+	w := h.w
+	rec := w.packets[c03Key(s, d, q)]
+	if rec != nil {
+		pkt = rec.bytes
+		if isAck {
+			ack = rec.ack
+		} else if forge { // same packet with an altered sender: commitment proof cannot verify
+			p := rec.packet
+			p.Sender = p.Sender + "00"
+			pkt, _ = p.ABIPack()
+		}
+	} else {
+		p := packettypes.Packet{SrcChain: h.name(s), DstChain: h.name(d), Sequence: q, Sender: strings.ToLower(w.acc[0].String()), CallData: []byte{1}, CallbackAddress: common.Address{}.String()}
+		pkt, _ = p.ABIPack()
+	}
+	if isAck && (ack == nil || forge) {
+		// fabricated acknowledgement: the opposite outcome of the genuine one (or a success if there is none)
+		code := uint64(0)
+		if ack != nil {
+			var a packettypes.Acknowledgement
+			_ = a.ABIDecode(ack)
+			if a.Code == 0 {
+				code = 1
+			}
+		}
+		ack, _ = packettypes.NewAcknowledgement(code, []byte{}, "", w.relayerTag(d, s), 0).ABIPack()
+	}
+	return
+}
+
+// countAmountClasses: boundary classes of the amounts of a successful send (floors)
+func (h *c03Harness) countAmountClasses(prefix string, vals ...*big.Int) {
+	seen := map[string]bool{}
+	for _, v := range vals {
+		if cl := c03AmountClass(v); cl != "" && !seen[cl] {
+			seen[cl] = true
+			h.r.Count(prefix + ".amount." + cl)
+		}
+	}
+}
+
+func c03AmountClass(v *big.Int) string {
+	switch n := v.BitLen(); {
+	case n > 255:
+		return "2^255+"
+	case n > 128:
+		return "2^128+"
+	case n > 64:
+		return "2^64+"
+	case n > 63:
+		return "2^63+"
+	case n > 53:
+		return "2^53+"
+	case n > 32:
+		return "2^32+"
+	}
+	return ""
+}
+
+// apply executes one op. A relay op that directly follows its own dry run (`sim…` with the same arguments) must come to the
+// verdict the dry run came to: the discarded execution may not influence it (and the dry run ran on the same state).
 func (h *c03Harness) apply(op string) string {
+	out := h.apply0(op)
+	switch {
+	case strings.HasPrefix(op, "sim"):
+		h.lastSim, h.lastSimOK = op[3:], strings.HasPrefix(out, "ok")
+	case op == h.lastSim:
+		if ok := strings.HasPrefix(out, "ok"); ok != h.lastSimOK {
+			h.find("C03:discarded-execution-changed-verdict:"+strings.Fields(op)[0], fmt.Sprintf("`%s`: executed on a dropped context it was accepted=%v, delivered right afterwards accepted=%v", op, h.lastSimOK, ok),
+				fmt.Sprint(ok), fmt.Sprint(h.lastSimOK))
+		} else {
+			h.r.Count("sim.verdict-confirmed")
+		}
+		h.lastSim = ""
+	default:
+		h.lastSim = ""
+	}
+	return out
+}
+
+func (h *c03Harness) apply0(op string) string {
 	f := strings.Fields(op)
 	w := h.w
 	r := h.r
@@ -578,6 +713,10 @@ func (h *c03Harness) apply(op string) string {
 		h.keys = nil
 		h.brokenEq = map[string]bool{}
 		h.regVersion = [c03NChains]int{}
+		h.seen = [c03NChains]map[int][]uint64{}
+		h.switchOn = [c03NChains]bool{}
+		h.restarts = [c03NChains]int{}
+		h.planted = map[[2]int]uint64{}
 		return "ok"
 	}
 	h.hist = append(h.hist, op)
@@ -603,13 +742,17 @@ func (h *c03Harness) apply(op string) string {
 		return "ok"
 	case "mint":
 		c, t, a := c03Atoi(f[1]), c03Atoi(f[2]), c03Atoi(f[3])
-		amt, _ := new(big.Int).SetString(f[4], 10)
-		w.mintERC20(c, w.tok[c][t], w.acc[a], amt)
+		amt := c03Big(f[4])
+		ok := w.mintERC20(c, w.tok[c][t], w.acc[a], amt)
 		w.coord.CommitBlock(w.ch[c])
+		if !ok {
+			r.Count("mint.err.supply-overflow")
+			return "err " + h.view(c).String()
+		}
 		return "ok " + h.view(c).String()
 	case "approve":
 		c, t, a := c03Atoi(f[1]), c03Atoi(f[2]), c03Atoi(f[3])
-		amt, _ := new(big.Int).SetString(f[4], 10)
+		amt := c03Big(f[4])
 		data, _ := w.erc20().Pack("approve", endpointcontract.EndpointContractAddress, amt)
 		if failed, e, _ := w.sendTxAs(c, a, w.tok[c][t], big.NewInt(0), data); failed {
 			r.t.Fatalf("approve failed: %s", e)
@@ -619,7 +762,7 @@ func (h *c03Harness) apply(op string) string {
 		return "ok " + h.view(c).String()
 	case "transfer":
 		c, t, a, b := c03Atoi(f[1]), c03Atoi(f[2]), c03Atoi(f[3]), c03Atoi(f[4])
-		amt, _ := new(big.Int).SetString(f[5], 10)
+		amt := c03Big(f[5])
 		var failed bool
 		if t == 0 {
 			failed, _, _ = w.sendTxAs(c, a, w.acc[b], amt, nil)
@@ -636,13 +779,18 @@ func (h *c03Harness) apply(op string) string {
 	case "send":
 		c, snd, d, t := c03Atoi(f[1]), c03Atoi(f[2]), c03Atoi(f[3]), c03Atoi(f[4])
 		f = append([]string{f[0], f[1]}, f[3:]...) // the remaining fields as before
-		amt, _ := new(big.Int).SetString(f[4], 10)
+		amt := c03Big(f[4])
 		rcv, ft := c03Atoi(f[5]), c03Atoi(f[6])
-		fa, _ := new(big.Int).SetString(f[7], 10)
+		fa := c03Big(f[7])
 		before := h.view(c)
 		contract, cd := h.callData(d, f[8])
+		cb := len(f) > 9 && f[9] == "cb"
+		cbAddr := common.Address{}
+		if cb {
+			cbAddr = w.acc[c03AccSwitch]
+		}
 		data := packettypes.CrossChainData{DstChain: h.name(d), TokenAddress: w.tok[c][t], Receiver: strings.ToLower(w.acc[rcv].String()), Amount: amt,
-			ContractAddress: contract, CallData: cd, CallbackAddress: common.Address{}, FeeOption: 0}
+			ContractAddress: contract, CallData: cd, CallbackAddress: cbAddr, FeeOption: 0}
 		fee := packettypes.Fee{TokenAddress: w.tok[c][ft], Amount: fa}
 		payload, err := endpointcontract.EndpointContract.ABI.Pack("crossChainCall", data, fee)
 		if err != nil {
@@ -671,6 +819,15 @@ func (h *c03Harness) apply(op string) string {
 		w.coord.CommitBlock(w.ch[c])
 		h.observeNew(c03Mech(f[8]), false)
 		after := h.view(c)
+		if !failed {
+			h.countAmountClasses("send.ok", amt, fa)
+			if d != c03Ghost && sendSeqBefore[d] >= 1<<63 {
+				r.Count("send.ok.seq.2^63+")
+			}
+			if cb {
+				r.Count("send.ok.callback-switch")
+			}
+		}
 		if failed {
 			r.Count("send.err")
 			if snd != c03AccUser {
@@ -709,6 +866,71 @@ func (h *c03Harness) apply(op string) string {
 		h.regVersion[c]++
 		r.Count("register")
 		return "ok"
+	case "cbset":
+		c := c03Atoi(f[1])
+		b := byte(c03Atoi(f[2]))
+		if failed, e, _ := w.sendTx(c, w.acc[c03AccSwitch], big.NewInt(0), []byte{b}); failed {
+			r.t.Fatalf("cbset failed: %s", e)
+		}
+		w.coord.CommitBlock(w.ch[c])
+		h.switchOn[c] = b != 0
+		r.Count("cbset")
+		return "ok"
+	case "restart":
+		return h.restartModule(c03Atoi(f[1]))
+	case "restartapp":
+		return h.restartApp(c03Atoi(f[1]))
+	case "plant":
+		n, err := strconv.ParseUint(f[3], 10, 64)
+		if err != nil {
+			r.t.Fatal(err)
+		}
+		return h.plant(c03Atoi(f[1]), c03Atoi(f[2]), n)
+	case "simrecv", "simack":
+		// the transaction of the corresponding recv / ack op, executed on a context that is dropped (BaseApp.Simulate)
+		s, d := c03Atoi(f[1]), c03Atoi(f[2])
+		q, _ := strconv.ParseUint(f[3], 10, 64)
+		forge, signer := c03RelayFlags(f[4:])
+		on := d
+		if f[0] == "simack" {
+			on = s
+		}
+		pkt, ack := h.relayBytes(f[0] == "simack", s, d, q, forge)
+		var msg sdk.Msg
+		var berr error
+		if f[0] == "simrecv" {
+			msg, berr = w.recvMsg(s, d, q, pkt, signer)
+		} else {
+			msg, berr = w.ackMsg(s, d, q, pkt, ack, signer)
+		}
+		if berr != nil {
+			r.t.Fatalf("%s: client update failed: %v", f[0], berr)
+		}
+		before := [c03NChains]string{}
+		for i := 0; i < c03NChains; i++ {
+			before[i] = h.view(i).String()
+		}
+		digest := w.storeDigest(on, "xibc") + w.storeDigest(on, "evm")
+		var serr error
+		pan, pmsg := safely(func() { serr = w.simulate(on, signer, msg) })
+		if pan {
+			r.t.Fatalf("panic in %s: %s", f[0], pmsg)
+		}
+		for i := 0; i < c03NChains; i++ {
+			if a := h.view(i).String(); a != before[i] {
+				h.find("C03:discarded-execution-changed-state:"+f[0], fmt.Sprintf("chain %d: a transaction executed on a dropped context (Simulate) changed the chain's views", i), a, before[i])
+			}
+		}
+		if d2 := w.storeDigest(on, "xibc") + w.storeDigest(on, "evm"); d2 != digest {
+			h.find("C03:discarded-execution-changed-state:"+f[0], fmt.Sprintf("chain %d: a transaction executed on a dropped context (Simulate) changed the xibc / evm store", on), d2, digest)
+		}
+		r.Count(f[0])
+		if serr != nil {
+			r.Count(f[0] + ".err")
+			return "err " + before[on]
+		}
+		r.Count(f[0] + ".ok")
+		return "ok " + before[on]
 	case "fakelog":
 		c, snd := c03Atoi(f[1]), c03Atoi(f[2])
 		before := h.view(c)
@@ -755,13 +977,13 @@ func (h *c03Harness) apply(op string) string {
 				frames = append(frames, c03Frame{to: w.emitter, value: big.NewInt(0), data: h.fakeLogData(c, c03AccFwd, g[1:])})
 				nFake++
 			case "A":
-				amt, _ := new(big.Int).SetString(g[2], 10)
+				amt := c03Big(g[2])
 				data, _ := w.erc20().Pack("approve", endpointcontract.EndpointContractAddress, amt)
 				frames = append(frames, c03Frame{to: w.tok[c][c03Atoi(g[1])], value: big.NewInt(0), data: data})
 			case "S":
 				d, t, rcv, ft := c03Atoi(g[1]), c03Atoi(g[2]), c03Atoi(g[4]), c03Atoi(g[5])
-				amt, _ := new(big.Int).SetString(g[3], 10)
-				fa, _ := new(big.Int).SetString(g[6], 10)
+				amt := c03Big(g[3])
+				fa := c03Big(g[6])
 				contract, cd := h.callData(d, g[7])
 				data := packettypes.CrossChainData{DstChain: h.name(d), TokenAddress: w.tok[c][t], Receiver: strings.ToLower(w.acc[rcv].String()), Amount: amt,
 					ContractAddress: contract, CallData: cd, CallbackAddress: common.Address{}, FeeOption: 0}
@@ -837,18 +1059,7 @@ func (h *c03Harness) apply(op string) string {
 		forge, signer := c03RelayFlags(f[4:])
 		key := c03Key(s, d, q)
 		rec := w.packets[key]
-		var pkt []byte
-		if rec != nil {
-			pkt = rec.bytes
-			if forge { // same packet with a doubled amount / altered sender: commitment proof cannot verify
-				p := rec.packet
-				p.Sender = p.Sender + "00"
-				pkt, _ = p.ABIPack()
-			}
-		} else {
-			p := packettypes.Packet{SrcChain: h.name(s), DstChain: h.name(d), Sequence: q, Sender: strings.ToLower(w.acc[0].String()), CallData: []byte{1}, CallbackAddress: common.Address{}.String()}
-			pkt, _ = p.ABIPack()
-		}
+		pkt, _ := h.relayBytes(false, s, d, q, forge)
 		before := h.view(d)
 		// the quantity a successful execution must move on the destination: bindings.amount (bound units) for a
 		// token arriving, outTokens for a bound token coming home
@@ -872,6 +1083,15 @@ func (h *c03Harness) apply(op string) string {
 			return new(big.Int).Neg(w.outTokens(d, common.HexToAddress(o.oriToken), h.name(s)))
 		}
 		credBefore := credited()
+		// would minting amount*10^scale on the destination pass 2^256-1 ?
+		overflows := false
+		if o := h.obs[key]; o != nil && o.amount != nil && o.oriToken == "" && d != c03Ghost {
+			if tr := w.callView(d, endpointcontract.EndpointContract.ABI, endpointcontract.EndpointContractAddress, "bindingTraces", h.name(s)+"/"+o.token)[0].(common.Address); tr != (common.Address{}) {
+				k := new(big.Int).Exp(big.NewInt(10), big.NewInt(int64(w.binding(d, tr, h.name(s)).Scale)), nil)
+				sum := new(big.Int).Add(w.supply(d, tr), new(big.Int).Mul(o.amount, k))
+				overflows = sum.BitLen() > 256
+			}
+		}
 		hadAck := rec != nil && rec.ack != nil
 		var derr error
 		_, signerAddr := w.signerOf(signer)
@@ -906,6 +1126,15 @@ func (h *c03Harness) apply(op string) string {
 		}
 		o.dstEffect = after.tokenPart != before.tokenPart
 		h.observeNew("nested", true)
+		if q >= 1<<63 {
+			r.Count("recv.ok.seq.2^63+")
+		}
+		if overflows && a.Code != 0 {
+			r.Count("recv.error-ack.uint256-overflow") // amount*10^scale or the new total supply does not fit: refused, to be refunded
+		}
+		if overflows && a.Code == 0 {
+			h.find("C03:minted-beyond-uint256", fmt.Sprintf("packet %s: success acknowledgement although amount*10^scale plus the total supply does not fit a uint256", key), "code 0", "error acknowledgement")
+		}
 		r.Count(fmt.Sprintf("recv.ok.code%d", a.Code))
 		r.Count(fmt.Sprintf("recv.ok.code%d.call.%s", a.Code, o.call))
 		if o.oriToken != "" {
@@ -947,26 +1176,7 @@ func (h *c03Harness) apply(op string) string {
 		forge, signer := c03RelayFlags(f[4:])
 		key := c03Key(s, d, q)
 		rec := w.packets[key]
-		var pkt, ack []byte
-		if rec != nil {
-			pkt = rec.bytes
-			ack = rec.ack
-		} else {
-			p := packettypes.Packet{SrcChain: h.name(s), DstChain: h.name(d), Sequence: q, Sender: strings.ToLower(w.acc[0].String()), CallData: []byte{1}, CallbackAddress: common.Address{}.String()}
-			pkt, _ = p.ABIPack()
-		}
-		if ack == nil || forge {
-			// fabricated acknowledgement: the opposite outcome of the genuine one (or a success if there is none)
-			code := uint64(0)
-			if ack != nil {
-				var a packettypes.Acknowledgement
-				_ = a.ABIDecode(ack)
-				if a.Code == 0 {
-					code = 1
-				}
-			}
-			ack, _ = packettypes.NewAcknowledgement(code, []byte{}, "", w.relayerTag(d, s), 0).ABIPack()
-		}
+		pkt, ack := h.relayBytes(true, s, d, q, forge)
 		before := h.view(s)
 		var outBefore, bindBefore *big.Int
 		o := h.obs[key]
@@ -1008,7 +1218,16 @@ func (h *c03Harness) apply(op string) string {
 			if o != nil && rec != nil && rec.ack != nil && !forge && o.received && !o.acked && w.hasCommitment(s, d, q) {
 				// the genuine acknowledgement of a packet that is still committed, with its genuine proof
 				r.Count("ack.err.genuine")
-				if !resolvable {
+				if o.cb && h.switchOn[s] {
+					// the sender's callback contract reverts: OnAcknowledgePacket reverts, the whole message is rejected, nothing
+					// changes, the same acknowledgement can be relayed again once the callback goes through
+					o.cbRejected++
+					if o.ackCode != 0 {
+						r.Count("ack.rejected.callback-reverts.error")
+					} else {
+						r.Count("ack.rejected.callback-reverts.success")
+					}
+				} else if !resolvable {
 					// the relayer named in the acknowledgement is not (or no longer) registered on the source: the whole
 					// message is rejected, nothing changes, it can be relayed again after a re-registration
 					if o.ackCode != 0 {
@@ -1038,8 +1257,25 @@ func (h *c03Harness) apply(op string) string {
 		}
 		o.acked = true
 		h.observeNew("nested", true)
+		if q >= 1<<63 {
+			r.Count("ack.ok.seq.2^63+")
+		}
+		if o.amount != nil {
+			h.countAmountClasses("ack.ok", o.amount, o.feeAmt)
+		}
 		if h.regVersion[s] != o.regAtRecv {
 			r.Count("ack.ok.after-reregistration")
+		}
+		if o.cbRejected > 0 {
+			// first delivery failed in the callback, the retry goes through: everything below (fee once, refund once) applies
+			if o.ackCode != 0 {
+				r.Count("ack.ok.after-callback-failure.error")
+			} else {
+				r.Count("ack.ok.after-callback-failure.success")
+			}
+		}
+		if o.cb && h.switchOn[s] {
+			r.Count("ack.ok.while-callback-reverts") // must not happen: the findings below say what is lost
 		}
 		if signer != c03AccUser {
 			r.Count("ack.ok.other-signer")
